@@ -18,13 +18,14 @@ use std::ops::Range;
 pub static INFO: PropInfo = PropInfo {
     id: "C08",
     level: "fault_enumeration",
-    rule: "two kinds of evaluation. (A) enumerated small scope (exhaustive: true refers to this sub-space only): for n <= 6 (quick) / 7 (thorough) EVERY ordered subset of the packet sequence numbers {0..n-1} (1957 / 13700 orders), each in 3 numberings (dense, stride 2, stride 1000 from a large base), is fed packet by packet to a fresh endpoint through process_packet; after every packet the recorded pending-ack list (hook) must be sorted, disjoint, non-adjacent, <= 64 ranges and denote exactly the fed set, and the ack packet emitted next must denote exactly that set. (B) sampled large scope: simulated lossy sessions (all fault profiles, ack-starved and data-starved directions, >64 disjoint ranges, acks of acks); after every arrival / send / tick the monitor computes from the hook the set of messages the sender no longer retransmits and requires each to have been delivered completely (all slices, byte-identical, decoded with the crate's decoder) to the still-connected peer; the public byte accounting (max - available = sum of lengths of unreleased messages) cross-checks the hook; every emitted Ack range must be a subset of the sequence numbers actually delivered to its emitter. Non-trivial (B) = faults occurred AND at least one message was released; distinct = fingerprints of the fed order (A) / event log (B). In the sessions (B) the other half of the clause is judged at the end: the link was healed for the whole liveness bound and nobody is disconnected, so no reliable message may still be missing at the receiving application while the sender holds it unreleased (it stopped retransmitting something the peer never got). Plus one LONG ACK RANGE run per check (per shard in the thorough tier): packet 0 arrives, packets 1..k are lost, more than 2^16 later packets arrive while nothing of the reverse direction gets through; after the receiver's acknowledgement ('0 and one very long run') the sender must still hold exactly messages 1..k.",
+    rule: "two kinds of evaluation. (A) enumerated small scope (exhaustive: true refers to this sub-space only): for n <= 6 (quick) / 7 (thorough) EVERY ordered subset of the packet sequence numbers {0..n-1} (1957 / 13700 orders), each in 3 numberings (dense, stride 2, stride 1000 from a large base), is fed packet by packet to a fresh endpoint through process_packet; after every packet the recorded pending-ack list (hook) must be sorted, disjoint, non-adjacent, <= 64 ranges and denote exactly the fed set, and the ack packet emitted next must denote exactly that set. (B) sampled large scope: simulated lossy sessions (all fault profiles, ack-starved and data-starved directions, >64 disjoint ranges, acks of acks); after every arrival / send / tick the monitor computes from the hook the set of messages the sender no longer retransmits and requires each to have been delivered completely (all slices, byte-identical, decoded with the crate's decoder) to the still-connected peer; the public byte accounting (max - available = sum of lengths of unreleased messages) cross-checks the hook; every emitted Ack range must be a subset of the sequence numbers actually delivered to its emitter. Non-trivial (B) = faults occurred AND at least one message was released; distinct = fingerprints of the fed order (A) / event log (B). In the sessions (B) the other half of the clause is judged at the end: the link was healed for the whole liveness bound and nobody is disconnected, so no reliable message may still be missing at the receiving application while the sender holds it unreleased (it stopped retransmitting something the peer never got). Plus one HUGE MESSAGE run per check (per fourth shard in the thorough tier): a reliable message of more than 2^16 slices (about 79 MB, on a channel configured for it); of its first transmission only the packet carrying one slice with an index above 65535 is delivered and acknowledged; the sender must still hold the message, and after loss-free rounds it must be obtained intact and only then released. Plus one LONG ACK RANGE run per check (per shard in the thorough tier): packet 0 arrives, packets 1..k are lost, more than 2^16 later packets arrive while nothing of the reverse direction gets through; after the receiver's acknowledgement ('0 and one very long run') the sender must still hold exactly messages 1..k.",
     assumptions: &[
         "the sequence number of a delivered packet is read with the crate's own decoder",
         "wire message ids are mapped to submissions by content",
     ],
     gates: &[
         ("long_ack_range_runs", 1),
+        ("huge_message_runs", 1),
         ("orders_enumerated", 1957),
         ("release_checked", 2000),
         ("ack_packets_checked", 2000),
@@ -41,6 +42,9 @@ pub fn run(ctx: &Ctx, out: &mut Outcome) {
         enumerate(ctx, out);
         if ctx.shard == 0 || ctx.thorough() {
             long_ack_range(ctx, out);
+        }
+        if ctx.shard == 1 || (ctx.thorough() && ctx.shard % 4 == 1) {
+            huge_message(ctx, out);
         }
     }
     super::run_loop(ctx, out, 3000, 300_000, 8, one_run);
@@ -98,6 +102,92 @@ fn long_ack_range(ctx: &Ctx, out: &mut Outcome) {
             "the sender gives a reliable message up only after every packet needed to rebuild it has been handed to the peer",
             format!("packets 1..={} (reliable messages 1..={}) were never delivered, {} later packets were; the receiver recorded {:?}; after its acknowledgement the sender still holds {:?} (before: {:?}), expected {:?}", k, k, run, pending, after, before, expected),
             json!({"property": "C08", "engine": ctx.engine, "mode": "long-ack-range", "seed": seed, "lost": k, "run": run}),
+        );
+    }
+}
+
+/// One message of more than 2^16 slices (some 79 MB, on a channel configured for it): of its first transmission only
+/// the packet carrying one slice with an index above 65535 is delivered and acknowledged. Every other slice - in
+/// particular the one whose index is 65536 lower - has never been handed to the peer, so the sender must keep
+/// retransmitting all of them: after loss-free rounds the message is obtained, intact, and only then released.
+fn huge_message(ctx: &Ctx, out: &mut Outcome) {
+    use bytes::Bytes;
+    use renet::{ChannelConfig, SendType};
+    use std::time::Duration;
+    let seed = ctx.shard_seed(0xB16);
+    let mut r = Rng::new(seed);
+    let budget = 120 * 1024 * 1024;
+    let ordered = r.chance(1, 2);
+    let chan = |_: ()| ChannelConfig {
+        channel_id: 1,
+        max_memory_usage_bytes: budget,
+        send_type: if ordered { SendType::ReliableOrdered { resend_time: Duration::from_millis(100) } } else { SendType::ReliableUnordered { resend_time: Duration::from_millis(100) } },
+    };
+    let cc = ConnectionConfig { available_bytes_per_tick: 400 * 1024 * 1024, server_channels_config: vec![chan(())], client_channels_config: vec![chan(())] };
+    let mut s = RenetClient::new(cc.clone());
+    s.set_connected();
+    let mut rcv = RenetClient::new(cc);
+    rcv.set_connected();
+    let extra = r.urange(1, 200);
+    let n_slices = 65_536 + extra;
+    let len = (n_slices - 1) * 1200 + r.urange(1, 1200);
+    let mut body = vec![0u8; len];
+    for (i, b) in body.iter_mut().enumerate() {
+        *b = (i as u64).wrapping_mul(0x9E37_79B9).wrapping_add(i as u64 >> 11) as u8;
+    }
+    let digest = crate::rng::fnv1a(&body);
+    s.send_message(1, Bytes::from(body));
+    let high = 65_536 + r.usize_below(extra); // the delivered slice; `high - 65536` is the one a 16-bit index would confuse it with
+    let first = s.get_packets_to_send();
+    let mut delivered = 0;
+    for p in first.iter() {
+        if matches!(crate::rsim::decode(p), Some(Packet::ReliableSlice { slice, .. }) if slice.slice_index == high) {
+            rcv.process_packet(p);
+            delivered += 1;
+        }
+    }
+    drop(first);
+    for p in rcv.get_packets_to_send() {
+        s.process_packet(&p);
+    }
+    let still_held = s.verif_unacked(1).unwrap_or_default();
+    let mut obtained: Option<(usize, u64)> = None;
+    let mut rounds = 0;
+    let mut per_round: Vec<usize> = Vec::new();
+    while rounds < 4 && obtained.is_none() {
+        rounds += 1;
+        s.update(Duration::from_millis(150));
+        rcv.update(Duration::from_millis(150));
+        let pk = s.get_packets_to_send();
+        per_round.push(pk.len());
+        for p in pk.iter() {
+            rcv.process_packet(p);
+        }
+        drop(pk);
+        if let Some(m) = rcv.receive_message(1) {
+            obtained = Some((m.len(), crate::rng::fnv1a(&m)));
+        }
+        for p in rcv.get_packets_to_send() {
+            s.process_packet(&p);
+        }
+    }
+    out.count("huge_message_runs");
+    out.eval(crate::rng::mix(&[0xB16, seed]), delivered == 1);
+    let released = s.verif_unacked(1).unwrap_or_default().is_empty();
+    let ok = delivered == 1 && still_held == vec![0] && obtained == Some((len, digest)) && released && s.channel_available_memory(1) == budget && !s.is_disconnected() && !rcv.is_disconnected();
+    if delivered != 1 {
+        return out.inconclusive("C08 huge message: the slice packet to deliver was not found");
+    }
+    if !ok {
+        out.violation(
+            ctx,
+            "C08/stopped-retransmitting-before-delivery/huge-message",
+            "the sender stops retransmitting a reliable message only after every packet needed to rebuild it has been handed to the peer",
+            format!(
+                "a message of {} slices ({} bytes): only slice {} of the first transmission was delivered and acknowledged; held afterwards {:?}; packets per loss-free round {:?}; obtained {:?} (expected ({}, {:#x})); released {}; disconnects {:?}/{:?}",
+                n_slices, len, high, still_held, per_round, obtained, len, digest, released, s.disconnect_reason(), rcv.disconnect_reason()
+            ),
+            json!({"property": "C08", "engine": ctx.engine, "mode": "huge-message", "seed": seed, "slices": n_slices, "delivered_slice": high}),
         );
     }
 }
